@@ -155,37 +155,50 @@ def codec_events(ctx):
     # time fields
     times = [0, 1, 59, 86399, 86400, 951782400, 2 ** 31 - 1, 2 ** 31, 2 ** 31 + 1, 1711846800, 1729994400, 2 ** 32 - 2, 2 ** 32 - 1]
     times += [ctx.rng.randrange(0, 2 ** 32) for _ in range(60 if ctx.quick else 2000)]
-    for t in times:
+    import os as _os
+    import time as _time
+    old_tz = _os.environ.get('TZ')
+    plan = [('UTC', times)] + [(z, times[:13] + times[13:13 + (10 if ctx.quick else 200)]) for z in ('America/St_Johns', 'Pacific/Kiritimati', 'Europe/London')]
+    for tz, tlist in plan:
+      # the process time zone is part of the environment: a four-octet time must not depend on it
+      _os.environ['TZ'] = tz
+      _time.tzset()
+      for t in tlist:
         q = t.to_bytes(4, 'big')
         for kind in ('pubkey', 'literal', 'sigtime'):
-            def one():
-                if kind == 'pubkey':
-                    o = PubKeyV4()
-                    o.created = bytearray(q)
-                    dt = o.created
-                    out = PktHeader.int_to_bytes(calendar.timegm(dt.timetuple()), 4)  # what PubKeyV4.__bytearray__ does
-                    # use the real serializer when possible
-                    return dt, out
-                if kind == 'literal':
-                    o = LiteralData()
-                    o.mtime = bytearray(q)
-                    raw = bytes(o.__bytearray__())
-                    return o.mtime, raw[len(o.header.__bytearray__()) + 2:][:4]
-                o = CreationTime()
-                o.created = bytearray(q)
-                raw = bytes(o.__bytearray__())
-                return o.created, raw[-4:]
-            r = call(one)
-            if isinstance(r, Exception):
-                ev.append({'k': 'time', 'q': octets(q), 'out': [256], 'secs': [256], 'kind': kind})
-            else:
-                dt, out = r
-                if dt.tzinfo is None:
-                    secs = calendar.timegm(dt.timetuple())
-                else:
-                    secs = int((dt - datetime(1970, 1, 1, tzinfo=timezone.utc)).total_seconds())
-                ev.append({'k': 'time', 'q': octets(q), 'out': octets(out),
-                           'secs': q32(secs) if 0 <= secs < 2 ** 32 else [256], 'kind': kind})
+              def one():
+                  if kind == 'pubkey':
+                      o = PubKeyV4()
+                      o.created = bytearray(q)
+                      dt = o.created
+                      out = PktHeader.int_to_bytes(calendar.timegm(dt.timetuple()), 4)  # what PubKeyV4.__bytearray__ does
+                      # use the real serializer when possible
+                      return dt, out
+                  if kind == 'literal':
+                      o = LiteralData()
+                      o.mtime = bytearray(q)
+                      raw = bytes(o.__bytearray__())
+                      return o.mtime, raw[len(o.header.__bytearray__()) + 2:][:4]
+                  o = CreationTime()
+                  o.created = bytearray(q)
+                  raw = bytes(o.__bytearray__())
+                  return o.created, raw[-4:]
+              r = call(one)
+              if isinstance(r, Exception):
+                  ev.append({'k': 'time', 'q': octets(q), 'out': [256], 'secs': [256], 'kind': kind, 'tz': tz})
+              else:
+                  dt, out = r
+                  if dt.tzinfo is None:
+                      secs = calendar.timegm(dt.timetuple())
+                  else:
+                      secs = int((dt - datetime(1970, 1, 1, tzinfo=timezone.utc)).total_seconds())
+                  ev.append({'k': 'time', 'q': octets(q), 'out': octets(out),
+                             'secs': q32(secs) if 0 <= secs < 2 ** 32 else [256], 'kind': kind, 'tz': tz})
+    if old_tz is None:
+        _os.environ.pop('TZ', None)
+    else:
+        _os.environ['TZ'] = old_tz
+    _time.tzset()
     # S2K coded count
     for c in range(256):
         s = String2Key()
